@@ -809,6 +809,58 @@ def rule_search(ctx, prop):
     return rep
 
 
+FS_RESOLVING = re.compile(r"(^|::)fs::|canonicalize|read_link|metadata|(^|::)env::|absolutize|normalize|realpath|dunce")
+
+
+def _deep_calls(f, o, depth=0, seen=None):
+    """all calls a value derives from, following the receiver (first argument) of every call"""
+    seen = set() if seen is None else seen
+    out = set()
+    if depth > 12:
+        return out
+    for r in provenance(f, o, through=None):
+        if r[0] == "call" and r[2] not in seen:
+            seen.add(r[2])
+            out.add(r[1])
+            t = f.blocks[r[2]]["term"]
+            for a in t["args"][:1]:
+                out |= _deep_calls(f, a, depth + 1, seen)
+    return out
+
+
+def rule_search_start(ctx, prop):
+    """the directory the upward search starts in is the lexical parent of `current_directory.join(path)`"""
+    rep = Report(prop, "R-CFG(i)", "the upward search for a configuration file starts in the lexical parent directory of "
+                                   "current_directory.join(path): no file-system dependent resolution (symlinks) of the path")
+    for cfg, prog in ctx.programs.items():
+        prog = _view(prog)
+        n = 0
+        for f in prog.fns("stylua"):
+            if not re.search(r"^config::ConfigResolver::<'_>::load_configuration(_for_stdin)?$", f.path):
+                continue
+            for b, t in f.calls():
+                if not callee(t).endswith("find_config_file"):
+                    continue
+                n += 1
+                calls = sorted(_deep_calls(f, t["args"][1]))
+                denied = [c for c in calls if FS_RESOLVING.search(c)]
+                if f.path.endswith("load_configuration"):
+                    pos = any(c.endswith("Path::join") for c in calls) and any(c.endswith("Path::parent") for c in calls)
+                else:
+                    pos = True     # stdin without a file path: the current directory itself
+                ok = pos and not denied
+                rep.inst(f"{f.key} search starts at parent(cwd.join(path))", {"derived_through": [c.split("::")[-1] for c in calls]}, cfg, ok=ok)
+                if not ok:
+                    what = f"resolved-through {','.join(c.split('::')[-1] for c in denied)}" if denied else "not-parent-of-joined-path"
+                    rep.violation(f"{f.key} search-start-directory {what}",
+                                  f"{f.path} starts the configuration search in a directory {what.replace('-', ' ')} instead of "
+                                  f"the lexical parent of current_directory.join(path): for a symlinked file or directory the "
+                                  f"walk leaves the project (and never meets the working-directory stop), so another "
+                                  f"stylua.toml is applied", f.loc(t["sp"]), cfg)
+        rep.floor("find_config_file call sites", n, 2, cfg)
+    return rep
+
+
 def rule_walkup(ctx, prop):
     rep = Report(prop, "R-CFG(g)", "upward search shape: root is the cwd unless --search-parent-directories; a directory is "
                                    "looked up before its parent; the walk stops at the root / file-system root; the XDG/HOME "
